@@ -243,6 +243,9 @@ func (d *delFaultStore) Del(ctx context.Context, key []byte) error {
 		return errInjected
 	case "c":
 		return storage.ErrCASFailed
+	case "u":
+		// "outcome unknown", and the delete did not land
+		return storage.NewErrUncertainResult(errInjected)
 	}
 	return d.KvStorage.Del(ctx, key)
 }
@@ -253,6 +256,9 @@ func (d *delFaultStore) DelCurrent(ctx context.Context, it storage.Iter) error {
 		return errInjected
 	case "c":
 		return storage.ErrCASFailed
+	case "u":
+		// "outcome unknown", and the delete did not land
+		return storage.NewErrUncertainResult(errInjected)
 	}
 	return d.KvStorage.DelCurrent(ctx, unwrapIter(it))
 }
@@ -299,6 +305,9 @@ func expiryOutcome(c *ctl, ik []byte, n int) error {
 		return errInjected
 	case "c":
 		return storage.ErrCASFailed
+	case "u":
+		// "outcome unknown", and the delete did not land
+		return storage.NewErrUncertainResult(errInjected)
 	}
 	return nil
 }
@@ -460,6 +469,9 @@ func (w *kvWrap) Del(ctx context.Context, key []byte) error {
 		return errInjected
 	case "c":
 		return storage.ErrCASFailed
+	case "u":
+		// "outcome unknown", and the delete did not land
+		return storage.NewErrUncertainResult(errInjected)
 	}
 	return w.inner.Del(ctx, key)
 }
@@ -470,6 +482,9 @@ func (w *kvWrap) DelCurrent(ctx context.Context, it storage.Iter) error {
 		return errInjected
 	case "c":
 		return storage.ErrCASFailed
+	case "u":
+		// "outcome unknown", and the delete did not land
+		return storage.NewErrUncertainResult(errInjected)
 	}
 	return w.inner.DelCurrent(ctx, unwrapIter(it))
 }
